@@ -14,7 +14,7 @@
 EXTENDS Naturals, Sequences, FiniteSets, SequencesExt, TLC
 
 CONSTANTS MaxLines, MaxShells
-Kinds == {"flusherr", "flusher", "plain"}
+Kinds == {"flusherr", "flusher", "plain", "both"}   \* "both": Flush and FlushError, as net/http's own ResponseWriter: FlushError is the one to use
 Shells == 1..MaxShells
 
 VARIABLES
@@ -99,7 +99,7 @@ InWrite(ok) ==
 
 InFlush(ok) ==
   /\ ipc = "flush"
-  /\ (~ok) => kind = "flusherr"
+  /\ (~ok) => kind \in {"flusherr", "both"}
   /\ IF ok
      THEN /\ flushed' = [flushed EXCEPT ![shell] = Append(@, cur)]
           /\ ipc' = "log" /\ UNCHANGED <<endedBy, cur>>
